@@ -681,3 +681,45 @@ func EqualDumps(a, b [][]byte) bool {
 	}
 	return eq
 }
+
+// ---------------------------------------------------------------- Tree API
+// A small exported view of the sorted bucket tree, reused by the bbolt model
+// of the C11 harness.
+
+type Tree struct{ n *node }
+
+func NewTree() *Tree          { return &Tree{&node{}} }
+func (t *Tree) Clone() *Tree  { return &Tree{t.n.clone()} }
+func (t *Tree) Len() int      { return len(t.n.ents) }
+func (t *Tree) Seq() uint64   { return t.n.seq }
+func (t *Tree) SetSeq(s uint64) { t.n.seq = s }
+
+// At returns the i-th entry in key order.
+func (t *Tree) At(i int) (key, val []byte, sub *Tree) {
+	e := t.n.ents[i]
+	if e.sub != nil {
+		return e.key, nil, &Tree{e.sub}
+	}
+	return e.key, e.val, nil
+}
+
+// Seek returns the index of the first key >= k and whether it is k itself.
+func (t *Tree) Seek(k []byte) (int, bool) { return t.n.find(k) }
+
+func (t *Tree) Put(k, v []byte) {
+	i, ok := t.n.find(k)
+	if ok {
+		t.n.ents[i].val = cp(v)
+		return
+	}
+	t.n.insertAt(i, entry{key: cp(k), val: cp(v)})
+}
+
+func (t *Tree) PutBucket(k []byte) *Tree {
+	i, _ := t.n.find(k)
+	sub := &node{}
+	t.n.insertAt(i, entry{key: cp(k), sub: sub})
+	return &Tree{sub}
+}
+
+func (t *Tree) RemoveAt(i int) { t.n.removeAt(i) }
